@@ -160,8 +160,10 @@ def body_path(case):
 
 
 # ------------------------------------------------------------------ (3) path strings
-TOKENS = ["a", "b", "abc", "x y", "1", "0", "-3", "2.5", "1e3", "007", " 7 ", "-0", "true", "A", "1.0", "٣", "1_0", "+2", ".5", "inf2"]
-DELIMS = ["/", ".", "|", "::"]
+TOKENS = ["a", "b", "abc", "x y", "1", "0", "-3", "2.5", "1e3", "007", " 7 ", "-0", "true", "A", "1.0", "٣", "1_0", "+2", ".5", "inf2",
+          # the empty key, and tokens that begin / end with a character of a multi-character delimiter (seeded C10-p)
+          "", "", "b:", ":b", "a-", ">a", "-1"]
+DELIMS = ["/", ".", "|", "::", "->"]
 
 
 def token_part(tok):
